@@ -134,6 +134,17 @@ func runE2E(sc scenario, o e2eOrder) (res e2eResult) {
 	state := theState()
 	state.Graph = core.NewGraph()
 	v := remote.VerifNewClient(state, "/home/verif-nobody")
+	t, err := addScenario(state, v, sc, o)
+	if err != nil {
+		res.err = err.Error()
+		return
+	}
+	return prepareOn(v, t)
+}
+
+// addScenario declares the scenario's target and its dependencies in state.Graph and gives the client the outputs of
+// the dependencies; several scenarios (distinct top-level directories) can share one graph and one client.
+func addScenario(state *core.BuildState, v *remote.VerifClient, sc scenario, o e2eOrder) (*core.BuildTarget, error) {
 	t := core.NewBuildTarget(core.BuildLabel{PackageName: sc.Pkg, Name: "t"})
 	labels := make([]core.BuildLabel, len(sc.Deps))
 	for i, d := range sc.Deps {
@@ -164,9 +175,18 @@ func runE2E(sc scenario, o e2eOrder) (res e2eResult) {
 	t.Command = "true"
 	state.Graph.AddTarget(t)
 	if err := t.ResolveDependencies(state.Graph); err != nil {
-		res.err = err.Error()
-		return
+		return nil, err
 	}
+	return t, nil
+}
+
+// prepareOn runs the real uploadInputs and buildAction for one target on the given client.
+func prepareOn(v *remote.VerifClient, t *core.BuildTarget) (res e2eResult) {
+	defer func() {
+		if r := recover(); r != nil {
+			res.err = "panic: " + fmt.Sprint(r)
+		}
+	}()
 	root, sent, err := v.UploadInputs(t, false)
 	if err != nil {
 		res.err = err.Error()
